@@ -91,10 +91,12 @@ namespace mfuse
         Game game;
         Level level;
         TargetList targetList;
+        // declared before the director so that it is destroyed after it:
+        // ~ScriptMaster() frees every script class through this allocator
+        DefaultScriptAllocator scriptAllocator;
         ScriptMaster director;
         OutputInfo outputInfo;
         ScriptInterfaces interfaces;
-        DefaultScriptAllocator scriptAllocator;
         ScriptSettings settings;
     };
 
